@@ -92,3 +92,91 @@ def L_gram_star(Ca, Cb, Cg, ca, cb, cg, sa, sb, sg):
 C01_LEMMAS = [('gram_star', L_gram_star, 9), ('scale_cos', L_scale_cos, 9), ('recip_cos_products', L_recip_cos_products, 9), ('gram_identity', L_gram_identity, 5),
               ('cancel_cos', L_cancel_cos, 7), ('sqrt_closed', L_sqrt_closed, 4), ('recip_volume', L_recip_volume, 13),
               ('length_back', L_length_back, 11)]
+
+
+# ---------------------------------------------------------------------------
+# lemmas with an explicit certificate
+#
+# fn(*terms) -> (eq_premises [(l, r)], side_premises [formula], conclusions [(l, r, mult, cofactors)])
+# Proof rule (the one pyvc/cert.py implements, here with the cofactors written down by the lemma's author instead of
+# searched for):   mult.(l - r) == sum_j cofactors[j].(pl_j - pr_j)  as a hypothesis-free polynomial identity,
+#                  mult != 0 under the premises    |-    premises => l == r.
+# The identity is built HERE from the conclusion and the premises (the author supplies only mult and the cofactors);
+# both steps are obligations decided by z3; a wrong cofactor makes the identity fail, it cannot make a false
+# conclusion pass.
+
+def unit_explicit(name, fn, n, module='tools'):
+    sig = [('x%d' % i, Real(0.1, 3.0)) for i in range(n)]
+
+    def req(*a):
+        return iter(())
+
+    def body(ns, *a):
+        eqp, side, concl = fn(*a)
+        for i, (l, r, mult, cof) in enumerate(concl):
+            assert len(cof) == len(eqp)
+            acc = 0 * mult
+            for cj, (pl, pr) in zip(cof, eqp):
+                if cj is not None:
+                    acc = acc + cj * (pl - pr)
+            yield 'conclusion_%d.certificate_identity' % i, Eq(mult * (l - r), acc)
+        cx = T.ctx()
+        for s in side:
+            cx.assume(s)
+        seen = set()
+        for i, (l, r, mult, cof) in enumerate(concl):
+            key = str(getattr(mult, 'z', mult))
+            if key in seen:
+                continue
+            seen.add(key)
+            yield 'conclusion_%d.multiplier_nonzero' % i, T.Not(Eq(mult, 0))      # from the side premises alone
+    return LemmaUnit('algebra.' + name, module, sig, req, body)
+
+
+def use_explicit(name, fn, *terms):
+    eqp, side, concl = fn(*terms)
+    for i, (pl, pr) in enumerate(eqp):
+        yield 'use.%s.premise_%d' % (name, i), Eq(pl, pr)
+    for i, s in enumerate(side):
+        yield 'use.%s.side_premise_%d' % (name, i), s
+    T.ctx().assume(T.And(*[Eq(l, r) for (l, r, _m, _c) in concl]))
+
+
+def _m3(xs):
+    xs = list(xs)
+    return [xs[0:3], xs[3:6], xs[6:9]]
+
+
+def _mm(A, B):
+    return [[A[i][0] * B[0][j] + A[i][1] * B[1][j] + A[i][2] * B[2][j] for j in range(3)] for i in range(3)]
+
+
+def _tr(A):
+    return [[A[j][i] for j in range(3)] for i in range(3)]
+
+
+def L_ubi_metric(*a):
+    """X (U B) = k I,  (U B) X = k I,  U'U = I,  (B'B) G = k^2 I,  k > 0   |-   X X' = G           (a: X, U, B, G row-major, k)
+    With M = U B, E1 = X M - k I, E2 = M X - k I, E3 = U'U - I, E4 = B'B G - k^2 I:
+        k^2 (X X' - G) = k E1 G + X E2' M G - X X' E4 - X X' B' E3 B G."""
+    X, U, Bm, Gm, k = _m3(a[0:9]), _m3(a[9:18]), _m3(a[18:27]), _m3(a[27:36]), a[36]
+    M = _mm(U, Bm)
+    XM, MX, UtU, BBG = _mm(X, M), _mm(M, X), _mm(_tr(U), U), _mm(_mm(_tr(Bm), Bm), Gm)
+    one = 1 + 0 * k
+    zero = 0 * k
+    idx = [(p, q) for p in range(3) for q in range(3)]
+    eqp = [(XM[p][q], k if p == q else zero) for p, q in idx] + [(MX[p][q], k if p == q else zero) for p, q in idx] + \
+          [(UtU[p][q], one if p == q else zero) for p, q in idx] + [(BBG[p][q], k * k if p == q else zero) for p, q in idx]
+    XXt = _mm(X, _tr(X))
+    MG = _mm(M, Gm)
+    XXtBt = _mm(XXt, _tr(Bm))
+    BG = _mm(Bm, Gm)
+    concl = []
+    for i in range(3):
+        for j in range(3):
+            c1 = [(k * Gm[q][j]) if p == i else None for p, q in idx]            # (k E1 G)_ij   = k sum_q E1_iq G_qj
+            c2 = [X[i][q] * MG[p][j] for p, q in idx]                             # (X E2' M G)_ij = sum X_iq E2_pq (MG)_pj
+            c3 = [-(XXtBt[i][p] * BG[q][j]) for p, q in idx]                      # -(X X' B' E3 B G)_ij
+            c4 = [(-XXt[i][p]) if q == j else None for p, q in idx]               # -(X X' E4)_ij
+            concl.append((XXt[i][j], Gm[i][j], k * k, c1 + c2 + c3 + c4))
+    return eqp, [k > 0], concl
